@@ -31,7 +31,7 @@ def streams(ctx):
     for x in gen.structured_x(rng, 10 ** 8, 10 ** 12 if ctx.quick else 10 ** 15, 30 if ctx.quick else 500):
         y, z = gen.gourdon_yz(rng, x, 0.3)
         yd = min(gen.dr_y(rng, x, 0.3), gen.iroot(3, x) * 20)
-        t = rng.choice((1, 16))
+        t = rng.choice((1, 16)) if x <= 10 ** 13 else 16     # one thread beyond 1e13 needs minutes per op (per-op alarm)
         ops2.append("ident_gourdon 64 %d %d %d %d %d" % (x, y, z, gen.get_k(x), t))
         ops2.append("ident_gourdon 128 %d %d %d %d %d" % (x, y, z, gen.get_k(x), t))
         ops2.append("ident_dr 64 %d %d %d %d" % (x, yd, gen.get_c(yd), t))
@@ -48,7 +48,7 @@ def streams(ctx):
                                 model="64-bit and 128-bit lines identical term by term, all totals equal"))
         return dis
     st2 = Stream("wide_vs_narrow_large_x", ops2, oracle=True, judge=judge,
-                 model_ops=lambda ops, impl: ["# " + o for o in ops], timeout=3000)
+                 model_ops=lambda ops, impl: ["# " + o for o in ops], timeout=6000, env={"PCV_OP_TIMEOUT": "900"})
     sts = [st1, st2] + params_streams.c11_streams(ctx)
     if not ctx.quick:
         # continuation across 2^63 (expensive: minutes per call) through neighbouring values
